@@ -2,6 +2,7 @@ import CliUtils.Drv.Util
 import CliUtils.Drv.C19
 import CliUtils.Drv.C15
 import CliUtils.Drv.C06
+import CliUtils.Drv.C20
 /-
   Line-protocol driver.  stdin: one JSON object per line  {"d": domain, "i": input, "o": implementation output}
   stdout: one line per case that needs attention, then one summary line.
@@ -14,7 +15,9 @@ def handlers : List (String × Handler) := [
   ("idstr", C15.handleIdstr),
   ("invstore", C15.handleInvstore),
   ("dep", C15.handleDep),
-  ("wait", C06.handleWait)
+  ("wait", C06.handleWait),
+  ("print", C20.handlePrint),
+  ("grammar-neg", C20.handleGrammarNeg)
 ]
 
 structure Stats where
